@@ -94,8 +94,7 @@ Inductive label :=
 | HungDone                 (* run_tasks: all hung tasks finished within the 5 s *)
 | GraceTimeout (g : grace)
 | Return (r : result)
-| Sweep                    (* daemon_killer's finally: every running daemon is asked to stop *)
-| SweepFail                (* ... the sweep iterates live dicts across awaits: "dictionary changed size during iteration" *)
+| Sweep                    (* daemon_killer's finally: snapshot of the running daemons; each of them is asked to stop *)
 | OrchStop                 (* orchestrator's except CancelledError: aiotasks.stop(ensemble tasks) *)
 | ActRootsGone             (* startup_cleanup: wait(other roots) returned; stop(core_tasks) *)
 | CoreStopped              (* startup_cleanup: stop(core_tasks) returned; reraise(core_done) *)
@@ -313,10 +312,9 @@ Definition finish_ready (s : state) (t : task) (o : outcome) : bool :=
       | _ => true
       end
   | TRoot RKiller =>
-      match o with
-      | OErr _ => true         (* the failed sweep skips scheduler.wait()/close(): nothing is awaited *)
-      | _ => swept s && forallb (fun d => is_done (ph s (TDaemon d)) || mem_nat d (abandoned s)) (asked s)
-      end
+      (* whatever ends the body (cancellation or an error), the finally block sweeps over SNAPSHOTS of the memories
+         and running daemons (since c948bdc) and then awaits its stoppers: scheduler.wait(), scheduler.close() *)
+      swept s && forallb (fun d => is_done (ph s (TDaemon d)) || mem_nat d (abandoned s)) (asked s)
   | TRoot RAct => false        (* has its own labels *)
   | TWatcher w => all_done (ph s) (filter (is_worker_of w) (spawned s))
   | TKeepalive k => mem_nat k (withdrawn s)
@@ -479,14 +477,6 @@ Definition step (s : state) (l : label) : option state :=
                                        | _ => [] end) (spawned s) in
           Some (mk (ph s) (spawned s) (act s) (mn s) (started s) (ready s) (stopflag s) (sfailed s) true
                    (ostopped s) (ds ++ asked s) (abandoned s) (graces s) (withdrawn s) (hung s))
-      | _ => None
-      end
-  | SweepFail =>
-      match ph s (TRoot RKiller) with
-      | PEnding _ =>
-          Some (mk (upd (ph s) (TRoot RKiller) (PEnding (OErr (EOf (TRoot RKiller))))) (spawned s) (act s) (mn s)
-                   (started s) (ready s) (stopflag s) (sfailed s) true (ostopped s) (asked s) (abandoned s)
-                   (graces s) (withdrawn s) (hung s))
       | _ => None
       end
   | OrchStop =>
